@@ -198,7 +198,7 @@ func init() {
 			Rule:        "case = generated scenario (1-3 engine configs sharing stores; ingest/flush/merge history) x generated queries; a query is non-trivial when at least one stored row is required by the reference semantics (matches bloom+regex and its own partition/minmax facts satisfy the prefilter); distinct = distinct (scenario, query JSON)",
 			Assumptions: []string{"reference semantics written from README/FILE_FORMAT.md over encoding/json (harness/refsem)", "field:token membership key = path + \"::\" + token", "regex patterns drawn from a fixed family"},
 			Floors:      map[string]int64{"queries": 50, "rows_required": 20}},
-		Cases: func(t string) int { return nQueries(t, 128, 3000) },
+		Cases: func(t string) int { return nQueries(t, 128, 1200) },
 		Run:   runC01,
 	})
 	Register(&Check{
@@ -206,7 +206,7 @@ func init() {
 			Rule:        "same scenario stream as C01 with high false-positive rates over-represented; a query is non-trivial when some stored row does not match it while its block is a candidate (so only row verification keeps it out) or a prefilter is present; distinct = distinct (scenario, query JSON)",
 			Assumptions: []string{"reference semantics in harness/refsem", "must(block)=strict evaluation over block metadata, may(block)=no referenced metadata missing"},
 			Floors:      map[string]int64{"queries": 50, "rows_returned": 20}},
-		Cases: func(t string) int { return nQueries(t, 96, 3000) },
+		Cases: func(t string) int { return nQueries(t, 96, 1200) },
 		Run:   runC02,
 	})
 }
